@@ -13,7 +13,8 @@ RULE = (
     "x output_levels/full_output/default level x {z0 only, ustar only, both} x scalar/list forcing (1-4 steps) x 1-3 towers with "
     "different heights and lat/lon offsets x every time index x {ideal source with shape and src_loc, user-supplied flux}; each (tower, "
     "step) run is compared bit for bit with the hand-assembled pipeline and its metadata with the step / tower; the dict is also "
-    "dumped to YAML and re-loaded.  non-trivial = configuration with >= 2 (tower, step) runs or non-default options; distinct = distinct "
+    "dumped to YAML and re-loaded; each configuration is followed IN THE SAME PROCESS by four variants on the same grid (other src_loc, default src_loc, "
+    "other closure, other tower heights).  non-trivial = configuration with >= 2 (tower, step) runs or non-default options; distinct = distinct "
     "configuration idx"
 )
 ASSUMPTIONS = [
@@ -92,6 +93,31 @@ def make_config(rng):
                      precision=sol["precision"], modes="explicit" if "modes" in dom else "default", src_loc="src_loc" in sol)
 
 
+def variants(raw, rng):
+    """Configurations that share the grid and domain of `raw` and differ in one solver/met option each (run in the same process)."""
+    import copy
+
+    out = []
+    v = copy.deepcopy(raw)
+    v["solver"]["src_loc"] = [float(rng.uniform(0, raw["domain"]["xmax"])), float(rng.uniform(0, raw["domain"]["ymax"]))]
+    v["solver"]["footprint"] = False
+    out.append(("src_loc", v))
+    v = copy.deepcopy(raw)
+    v["solver"].pop("src_loc", None)
+    v["solver"]["footprint"] = False
+    v["solver"]["surface_flux_shape"] = raw["solver"].get("surface_flux_shape", "diamond")
+    out.append(("src_loc_default", v))
+    v = copy.deepcopy(raw)
+    v["solver"]["closure"] = "MOST" if raw["solver"]["closure"] != "MOST" else "MOSTM"
+    v["solver"].pop("analytic", None)
+    out.append(("closure", v))
+    v = copy.deepcopy(raw)
+    for t in v["towers"]:
+        t["z_m"] = float(t["z_m"] * 1.37)
+    out.append(("tower_height", v))
+    return out
+
+
 def run_case(case):
     import os
 
@@ -106,7 +132,10 @@ def run_case(case):
     from vlib import gen
 
     rng = gen.rng_for(case["seed"], "C13", case["idx"])
-    raw, desc = make_config(rng)
+    if "_raw" in case:
+        raw, desc = case["_raw"], case["_desc"]
+    else:
+        raw, desc = make_config(rng)
     viol = []
     counters = {"single_runs": 0, "spy_wind": 0, "spy_profiles": 0, "spy_source": 0, "spy_solver": 0, "yaml_roundtrips": 0, "bitwise_equal_fields": 0}
     import copy
@@ -214,4 +243,16 @@ def run_case(case):
            "sample": {"config": raw, "runs": nruns}}
     if inc:
         out["harness_error"] = "spies never reached: run_bldfm_single did not go through bldfm.interface's callables"
+    # the same process now runs configurations that share this grid and differ in one option each
+    if "_raw" not in case and not out.get("harness_error"):
+        for label, vraw in variants(raw, gen.rng_for(case["seed"], "C13v", case["idx"])):
+            sub = run_case({"seed": case["seed"], "idx": case["idx"], "_raw": vraw, "_desc": dict(desc, variant=label)})
+            if sub.get("harness_error"):
+                continue
+            out["evals"] += sub["evals"]
+            for k_, v_ in sub["counters"].items():
+                out["counters"][k_] = out["counters"].get(k_, 0) + v_
+            out["counters"]["configurations_in_one_process"] = out["counters"].get("configurations_in_one_process", 1) + 1
+            out["buckets"][f"variant:{label}"] = 1
+            out["violations"].extend(dict(v_, after_configuration_variant=label) for v_ in sub["violations"])
     return out
